@@ -57,6 +57,24 @@ def handle0 (case impl : List String) : Verdict :=
       let v := Verdict.ok tags
       let v := v.withDiff (impl != [stHex y]) s!"model {stHex y}"
       v.withSpec (x != 0 && impl == [toHex 16 0]) "reaches-zero" "non-zero state steps to zero"
+  | ["default"] =>
+    (Verdict.ok ["default"]).withSpec (impl.getD 1 "" != "1") "default-seed" "Xorshift64::default() is not from_seed(DEFAULT_SEED)"
+  | ["samples", s, n, a, b] =>
+    match st? s, n.toNat?, a.toInt?, b.toInt? with
+    | some x, some n, some a, some b =>
+      -- n successive draws of the scalar distribution
+      let r := (List.range n).foldl (fun (acc : Option (List Int × BitVec 64)) _ =>
+        match acc with
+        | none => none
+        | some (vs, st) => match uniformI32 st a b with
+          | .ok (v, st') => some (vs ++ [v], st')
+          | .panic _ => none) (some ([], x))
+      match r with
+      | some (vs, st') =>
+        let want := vs.map toString ++ [stHex st']
+        (Verdict.ok ["samples"]).withDiff (impl != want) s!"model {want}"
+      | none => bad "samples: model panics"
+    | _, _, _, _ => bad "samples"
   | ["seq", s, n] =>
     match st? s, n.toNat? with
     | some x, some n =>
